@@ -180,6 +180,7 @@ func (t *FnTrans) strToBytes(x *ssa.Convert, s string) {
 
 func (t *FnTrans) recv(x *ssa.UnOp) {
 	t.abstr["chan-recv"] = true
+	t.ghostAt("before recv") // ghost statements attached to plain (blocking) channel receives of this function
 	T := t.resolve(x.Type())
 	if tup, ok := T.(*types.Tuple); ok {
 		_ = tup
